@@ -57,6 +57,12 @@ func wellFormedRecordAt(r *rand.Rand, off int) []byte {
 	return serializeRecord(pick(r, []string{"1.1", "1.0"}), fields, g.body, "\r\n")
 }
 
+const companionID = "<urn:uuid:c0ffee00-0000-0000-0000-000000000001>"
+
+var companionRecord = serializeRecord("1.1", [][2]string{{"WARC-Type", "resource"}, {"WARC-Record-ID", companionID},
+	{"WARC-Date", "2021-05-06T07:08:09Z"}, {"WARC-Target-URI", "http://example.com/companion"}, {"Content-Type", "text/plain"},
+	{"Content-Length", "9"}}, []byte("companion"), "\r\n")
+
 type wfile struct {
 	gz    bool
 	recs  [][]byte // serialized records (uncompressed)
@@ -121,6 +127,22 @@ type readResult struct {
 
 func readAll(o ropts, data []byte, dir string) (res []readResult, panicked string) {
 	panicked = catch(func() {
+		// a second reader on another stream is open all the while: readers do not share what they hold
+		comp, cerr := gowarc.NewWarcFileReaderFromStream(bytes.NewReader(companionRecord), 0, gowarc.WithBufferTmpDir(dir))
+		if cerr == nil {
+			defer comp.Close()
+			defer func() {
+				rec, off, _, err := comp.Next()
+				id := ""
+				if rec != nil {
+					id = rec.WarcHeader().Get("WARC-Record-ID")
+					rec.Close()
+				}
+				if err != nil || off != 0 || id != companionID {
+					panic(fmt.Sprintf("a second reader, open at the same time on another stream, did not return its own record: id %q offset %d err %v", id, off, err))
+				}
+			}()
+		}
 		wf, err := gowarc.NewWarcFileReaderFromStream(bytes.NewReader(data), 0, o.options(dir, nil)...)
 		if err != nil {
 			return
@@ -286,6 +308,8 @@ func damagedStream(r *rand.Rand) []byte {
 		}
 	case 4:
 		fields = append(fields, [2]string{"WARC-Block-Digest", "sha1:AAAAAAAAAAAAAAAAAAAAAAAAAAAAAAAA"})
+	case 6: // an encoded-word whose charset the decoder does not know; an address with a zone
+		fields = append(fields, [2]string{"X-Enc", "=?windows-1252?Q?caf=E9?="}, [2]string{"WARC-IP-Address", "fe80::1%eth0"})
 	case 5: // a valid but non-canonical spelling of the length
 		for j := range fields {
 			if fields[j][0] == "Content-Length" {
@@ -297,6 +321,10 @@ func damagedStream(r *rand.Rand) []byte {
 		// a folded header field; the line before the fold may end in blanks
 		fields = append(fields, [2]string{pick(r, []string{"X-Folded", "WARC-Filename", "Content-Type"}),
 			pick(r, []string{"text/plain; \r\n charset=utf-8", "a\t\r\n\tb \r\n c", "one\r\n two", "x  \r\n  y"})})
+	}
+	if r.Intn(250) == 0 {
+		// a field folded over three long lines: longer than 8192 bytes once unfolded
+		fields = append(fields, [2]string{"X-Long-Folded", strings.Repeat("a", 3000) + "\r\n " + strings.Repeat("b", 3000) + "\r\n\t" + strings.Repeat("c", 3000)})
 	}
 	version := "1.1"
 	if r.Intn(12) == 0 { // versions the library does not know, in every shape
